@@ -50,6 +50,22 @@ MCActivate == /\ nacts < MaxActs
               /\ nacts' = nacts + 1
               /\ UNCHANGED <<di, ncalls, nfails>>
 
+\* a new machine over the model of the old one: whatever the model stores is resumed
+MCRestart == /\ nacts < MaxActs /\ Born(1) /\ Idle(M(1))
+             /\ \E o \in DOMAIN F.opts, g \in DOMAIN F.gvs :
+                   /\ Instantiate(1, 1, F.opts[o], M(1).cur, SeqToSet(F.provs), F.gvs[g])
+                   /\ Rec([e |-> "restart", opt |-> F.opts[o], gv |-> F.gvs[g]])
+             /\ nacts' = nacts + 1
+             /\ UNCHANGED <<di, ncalls, nfails>>
+
+\* the model field written from outside: through the machine's setter or behind its back
+MCWrite == /\ nacts < MaxActs /\ Born(1)
+           /\ \E v \in DOMAIN F.values :
+                 \/ WriteSetter(1, F.values[v]) /\ Rec([e |-> "write_setter", v |-> F.values[v]])
+                 \/ WriteModel(1, F.values[v])  /\ Rec([e |-> "write_model", v |-> F.values[v]])
+           /\ nacts' = nacts + 1
+           /\ UNCHANGED <<di, ncalls, nfails>>
+
 MCBegin == \E c \in DOMAIN classes[1].cbs : BeginCb(1, c) /\ Rec([e |-> "B", c |-> c]) /\ Keep
 MCEnd   == \E c \in DOMAIN classes[1].cbs : EndCb(1, c, FALSE) /\ Rec([e |-> "E", c |-> c, raised |-> FALSE]) /\ Keep
 MCFail  == /\ nfails < MaxFails
@@ -72,7 +88,7 @@ MCTrigDone  == TrigDone(1)  /\ Quiet
 MCUnwind    == Unwind(1)    /\ Quiet
 MCReturn   == Return(1) /\ Rec([e |-> "ret", out |-> M(1).out, cur |-> M(1).cur]) /\ Keep
 
-MCNext == \/ MCNew \/ MCCall \/ MCActivate \/ MCBegin \/ MCEnd \/ MCFail
+MCNext == \/ MCNew \/ MCCall \/ MCActivate \/ MCRestart \/ MCWrite \/ MCBegin \/ MCEnd \/ MCFail
           \/ MCNested \/ MCNRet \/ MCReturn
           \/ MCLoopPop \/ MCLoopExit \/ MCSelect \/ MCGuardFail \/ MCAdvance \/ MCAssign
           \/ MCTrigDone \/ MCUnwind
@@ -117,6 +133,19 @@ DroppedNeverRun ==
 \* `__initial__` of an async machine is always processed first
 ActivatedBeforeFirstEvent ==
     \A i \in Slots : (Born(i) /\ TopIs(M(i), "trig") /\ ~Top(M(i)).init) => Top(M(i)).from # ""
+
+\* C11: the `__initial__` pseudo-transition only ever starts on a model that stores no state
+InitOnlyFromNoState ==
+    \A i \in Slots : Born(i) =>
+        \A k \in DOMAIN M(i).stack :
+            (M(i).stack[k].k = "trig" /\ M(i).stack[k].init /\ M(i).stack[k].phase \in {"select", "assign"})
+                => M(i).cur = ""
+\* C11: a machine created over a stored state has nothing to process
+ResumeRunsNothing ==
+    [][\A i \in Slots :
+         (insts'[i].cls # 0 /\ insts'[i].m.ctor /\ ~insts[i].m.ctor /\ insts'[i].m.cur # "")
+            => /\ insts'[i].m.queue = <<>>
+               /\ \A k \in DOMAIN insts'[i].m.stack : insts'[i].m.stack[k].k = "loop"]_mvars
 
 \* C14: only before/on results reach the caller
 ResultOnlyBeforeOn ==
